@@ -226,14 +226,23 @@ def worker(c):
     # ---- corruption of located int arrays
     blob = img.tobytes()
     narr = 0
-    for k, (ptr, ct, shape) in m.fields().items():
+    # exact offsets: after the header the image is the arrays of MJMODEL_POINTERS written back to back in X-macro order (mj_saveModel),
+    # so the offset of an array is the image size minus the bytes of that array and all later ones; verified against the bytes
+    flds = list(m.fields().items())
+    offs = {}
+    tail_bytes = 0
+    for k, (ptr, ct, shape) in reversed(flds):
+        tail_bytes += int(m[k].nbytes) if ptr else 0
+        offs[k] = sz - tail_bytes
+    for k, (ptr, ct, shape) in flds:
         if ct != "int":
             continue
         a = m[k]
-        if a.size == 0 or a.nbytes < 8:
+        if a.size == 0:
             continue
-        pos = blob.find(a.tobytes(), hdr)
-        if pos < 0 or blob.find(a.tobytes(), pos + 1) >= 0:
+        pos = offs[k]
+        if pos < hdr or blob[pos:pos + a.nbytes] != a.tobytes():
+            P.count("int_array_offset_not_confirmed")
             continue
         narr += 1
         idxs = sorted(set([0, a.size - 1] + [int(x) for x in rng.integers(0, a.size, size=c["nidx"])]))
